@@ -757,6 +757,11 @@ def alphabet(cfg, reduced=False):
               b'RCPT TO:<q@x.example> NOTIFY=NEVER', b'RSET', b'RSET x', b'NOOP', b'NOOP x', b'QUIT', b'QUIT x', b'STARTTLS x',
               b'FOO', b'FOO bar', b'', b'123 x', b'MAIL1 FROM:<s@x.example>', b' NOOP', b'HAVE_DATA x', b'CLOSE']:
         add(item(l))
+    # the null reverse-path (bounces): a sender that is the empty string is still a sender
+    add(item(b'MAIL FROM:<>', name='MAIL-null-sender/keep'))
+    add(item(b'MAIL FROM:<>', v1=550, name='MAIL-null-sender/550'))
+    add(item(b'MAIL FROM:<> SIZE=10', name='MAIL-null-sender/SIZE'))
+    add(item(b'RCPT TO:<>', name='RCPT-null-path/keep'))
     for l in COLLISIONS_CORE:          # unknown verbs spelled like the library's internal callback names
         add(item(l))
     add(item(b'STARTTLS', tls=1, name='STARTTLS/ok'))
@@ -858,7 +863,8 @@ def abstract(st):
     """finite abstraction of the session state used as BFS key"""
     if st is None:
         return None
-    env = None if st[10] is None else min(len(st[10][1]), 2)
+    # envelope shape: number of recipients (capped), and whether the sender is the null reverse-path
+    env = None if st[10] is None else (min(len(st[10][1]), 2), st[10][0] == b'')
     return (st[0], st[1] is not None, st[2], st[3], st[4], st[5], st[6], st[7], st[8], st[9], env,
             st[11] is not None, st[12] is not None, st[13], st[14]) + tuple(st[15:])
 
@@ -949,7 +955,7 @@ def bfs(ctx, cfg, alpha, budget=None):
 
 def run(ctx):
     ctx.extra['rule'] = (
-        'BFS over the abstract session state (server flags, extension set, edge envelope shape with recipients capped at 2, auth, TLS) of the REAL '
+        'BFS over the abstract session state (server flags, extension set, edge envelope shape with recipients capped at 2 and null/non-null sender, auth, TLS) of the REAL '
         'Server+SmtpSession per configuration {STARTTLS offered?, AUTH?, SIZE?, immediate TLS ok/failing}: each state is reached by the first command '
         'prefix found and then every symbol (command class x validator verdict {keep,450,550,421,221,raise Exception,raise gevent.Timeout,raise GreenletExit} x malformed variants x queue results x '
         'AUTH/TLS outcomes, ~100 symbols) is issued; plus every sequence up to the stated depth over a 16-symbol alphabet; plus random depth-12 '
@@ -973,6 +979,9 @@ def run(ctx):
         # a callback that runs into a gevent.Timeout of its own / is killed (seed C07-10)
         ('RCPT/raise-gevent.Timeout', 'NOOP'), ('DATA/raise-gevent.Timeout', 'NOOP'), ('DATA/have_data=raise-gevent.Timeout', 'NOOP'),
         ('DATA/queued=raise-gevent.Timeout', 'NOOP'), ('RCPT/raise-GreenletExit', 'NOOP'), ('DATA/have_data=raise-GreenletExit', 'NOOP')]]
+    # the null reverse-path opens a transaction like any other sender (seed C07-6)
+    corpus += [[A0['EHLO/keep'], A0['MAIL-null-sender/keep'], A0['RCPT/keep'], A0['DATA/keep'], A0['NOOP']],
+               [A0['EHLO/keep'], A0['MAIL-null-sender/keep'], A0['MAIL/keep'], A0['RSET'], A0['MAIL-null-sender/SIZE'], A0['RCPT-null-path/keep'], A0['DATA/keep']]]
     corpus += [[A0['EHLO/raise-gevent.Timeout'], A0['NOOP']], [A0['EHLO/keep'], A0['MAIL/raise-gevent.Timeout'], A0['NOOP']]]
     check_cases(ctx, [dict(cfg=cfgs[0], vb=KEEP, items=c) for c in corpus], 'corpus', lambda c, i, m: notes(ctx, c, i))
     tot_states = tot_trans = 0
